@@ -241,6 +241,32 @@ def make_async(pid, macro, profile, config, order, idx, seed, variant):
                    unwind=12, weight=3, variant=variant, solo=(max(profile) > 1))
 
 
+def make_async_lazy(pid, macro, steps, idx):
+    """lazy_branches(true) in the async kinds: the joiner macro receives zero-argument closures yielding the step futures; it calls them in
+    reverse order (a future handed over instead would not be callable: build stage)"""
+    is_async, is_try, is_spawn = KINDS[macro]
+    wrap = (lambda x: "mk(true, %s)" % x) if is_try else (lambda x: x)
+    jn = "ajl_%s" % pid
+    items = "macro_rules! %s { ($a:expr, $b:expr) => { { ev(%d); let fb = ($b)(); let fa = ($a)(); ::futures::%s!(fa, fb) } } }" % (jn, J_EV, "try_join" if is_try else "join")
+    opts = ["lazy_branches(true)", "custom_joiner(%s!)" % jn]
+    if idx % 2:
+        opts.reverse()
+    later = (lambda k, q: " ~|> move |v: %s| { ev(%d); %s }" % ("Result<u8, u8>" if is_try else "u8", k, "v.map(|x| x ^ %s)" % q if is_try else "v ^ %s" % q)) if steps == 2 else (lambda k, q: "")
+    b0 = "(move || { ev(1); ready(%s) })()%s" % (wrap("p0"), later(3, "q0"))
+    b1 = "(move || { ev(2); ready(%s) })()%s" % (wrap("p1"), later(4, "q1"))
+    text = "%s! {\n        %s\n        %s,\n        %s\n    }" % (macro, " ".join(opts), b0, b1)
+    msg = lambda t: "\"C16[%s]: %s\"" % (pid, t)
+    L = ["let p0 = u(); let p1 = u(); let q0 = u(); let q1 = u();", "let mut fut = %s;" % text, "let r = poll_once(&mut fut);"]
+    exp = "(p0 ^ q0, p1 ^ q1)" if steps == 2 else "(p0, p1)"
+    L.append("vassert!(r == Poll::Ready(%s), %s);" % ("Ok(%s)" % exp if is_try else exp, msg("value")))
+    L.append("vassert!(cnt(%d) == %d && cnt(1) == 1 && cnt(2) == 1, %s);" % (J_EV, steps, msg("joiner once per multi-branch step, every lazy branch entered exactly once")))
+    L.append("vassert!(first(%d) < first(2) && first(2) < first(1), %s);" % (J_EV, msg("lazy_branches(true) hands each branch over as a zero-argument closure also in the async kinds: nothing of a branch runs before the joiner calls it, in the joiner's (reverse) order")))
+    if steps == 2:
+        L.append("vassert!(cnt(3) == 1 && cnt(4) == 1, %s);" % msg("second-step callbacks run once"))
+    L.append("vcover!(true, \"end reached\");")
+    return Program(pid, text, "    " + "\n    ".join(L), items=items, desc=dict(macro=macro, options=opts, steps=steps), group="async-lazy/" + macro, role=dict(kind=macro), unwind=12, weight=3, solo=(steps > 1))
+
+
 def orders(names, tier):
     perms = list(itertools.permutations(sorted(names)))
     if tier == "quick" and len(perms) > 2:
@@ -270,6 +296,13 @@ def programs(tier, seed):
         for k in range(2):
             i += 1
             ps.append(make_lazy_order("p%04d" % i, macro, i))
+    for macro in ("join_async", "try_join_async"):
+        for steps in (1, 2):
+            for k in range(2):
+                i += 1
+                if tier == "quick" and steps == 2 and k == 1:
+                    continue
+                ps.append(make_async_lazy("p%04d" % i, macro, steps, i))
     async_cfgs = {
         "join_async": [["path"], ["joiner"], ["path", "joiner"], ["path", "joiner", "lazy_false"]],
         "try_join_async": [["path"], ["joiner", "transpose_false"], ["path", "joiner", "transpose_false"], ["transpose_false"], ["path", "joiner", "transpose_false", "lazy_false"]],
